@@ -161,6 +161,7 @@ Proof.
   - apply Inv_agg_done; auto.
   - apply Inv_commit; auto.
   - apply Inv_rollback; auto.
+  - apply Inv_rollback_l; auto.
   - apply Inv_run_nth; auto.
   - apply Inv_run_some; auto.
 Qed.
